@@ -467,7 +467,16 @@ pub fn run(args: &Args, corpus: &[String]) -> serde_json::Value {
     }
     rep.count("random", n_random);
     if !corpus.is_empty() {
-        if shard == 0 {
+        if args.num("lite", 0) != 0 {
+            // interpreted run: the corpus files are spread over the shards, a few per shard
+            let per = args.num("corpusfiles", 6) as usize;
+            let mine: Vec<&String> = corpus.iter().enumerate().filter(|(i, _)| *i as u64 % shards == shard).map(|(_, c)| c).collect();
+            for k in 0..per.min(mine.len()) {
+                let c = mine[(k * 7919 + args.seed as usize) % mine.len()];
+                check_one(&mut rep, c, "corpus");
+                rep.count("corpus_files", 1);
+            }
+        } else if shard == 0 {
             for c in corpus {
                 check_one(&mut rep, c, "corpus");
             }
